@@ -128,6 +128,23 @@ def gen_model(r, *, roots='free', n_links=None, max_links=6, collide=(0, 0),
           'plane_ct': list(plane_ct)}
 
 
+def emission_order(m):
+  """Genome link indices in the order the bodies are emitted (depth first),
+  which is the link order of the loaded brax system."""
+  children = {i: [] for i in range(-1, len(m['links']))}
+  for i, l in enumerate(m['links']):
+    children[l['parent']].append(i)
+  order = []
+
+  def walk(i):
+    order.append(i)
+    for c in children[i]:
+      walk(c)
+  for rt in children[-1]:
+    walk(rt)
+  return order
+
+
 def to_xml(m, *, collide_off=False, strip_limits=False):
   """collide_off: render every geom (and the plane) with contype =
   conaffinity = 0 (the inert twin). strip_limits: drop every range."""
